@@ -69,7 +69,16 @@ def strip_casts(e):
 
 
 def unwrap_payload(e, variant):
-    """x@Some.0 -> x (None if e is not the payload of that variant)"""
+    """x@Some.0 -> x (None if e is not the payload of that variant); `x?` is the Some / Ok payload of x as well"""
+    t = e
+    while t.k in ("ref", "deref") or (t.k == "cast" and t.x.get("transparent")):
+        t = t.a[0]
+    if t.k == "field" and t.x["name"] == "0" and t.a[0].k == "downcast" and t.a[0].x["variant"] == "Continue":
+        br = t.a[0].a[0]
+        if br.k == "call" and br.x["path"].endswith("Try>::branch") and br.a:
+            is_opt = "option::Option" in br.x["path"]
+            if (variant == "Some" and is_opt) or (variant == "Ok" and not is_opt):
+                return br.a[0]
     e = e.strip()
     if e.k == "field" and e.x["name"] in ("0",) and e.a[0].k == "downcast" and e.a[0].x["variant"] == variant:
         return e.a[0].a[0]
